@@ -20,7 +20,7 @@ PORT = r"\d+"
 PATH = r"[%\w~.\-\+/\\\$]+"
 NAME = r"[%\w~.\-]+"
 REV = r"[^@#]+?"
-SUBDIR = r"[\w\-/\\]+"
+SUBDIR = r"[\w.\-/\\]+"
 PATTERN_SUFFIX = (
     r"(?:"
     rf"#(?:egg=.+?&subdirectory=|subdirectory=)(?P<subdirectory>{SUBDIR})"
